@@ -23,8 +23,11 @@ Definition f_of_Z (z : Z) : float :=
   | Zpos _ => PrimFloat.of_uint63 (Uint63.of_Z z)
   | Zneg p => PrimFloat.opp (PrimFloat.of_uint63 (Uint63.of_Z (Zpos p)))
   end.
+(* named constants: extraction wraps named constants, but not float literals, in Obj.magic *)
+Definition f_zero : float := f_of_Z 0.
+Definition f_one : float := f_of_Z 1.
 Definition F_ops : ops :=
-  {| T := float; zero := 0%float; one := 1%float; add := PrimFloat.add; sub := PrimFloat.sub; mul := PrimFloat.mul;
+  {| T := float; zero := f_zero; one := f_one; add := PrimFloat.add; sub := PrimFloat.sub; mul := PrimFloat.mul;
      div := PrimFloat.div; opp := PrimFloat.opp; sqrt := PrimFloat.sqrt; abs := PrimFloat.abs;
      leb := PrimFloat.leb; ltb := PrimFloat.ltb; eqb := PrimFloat.eqb; of_Z := f_of_Z |}.
 Section Generic.
